@@ -130,6 +130,7 @@ type VC struct {
 	lenHint  map[string]int // SMT term of a slice -> its statically known length
 	inlineStack []*ssa.Function
 	heldOnEntry map[string]bool
+	lockChecksOff bool
 }
 
 // Usage records what a verification run relied on (for the evidence).
